@@ -453,4 +453,17 @@ theorem sysvLay_struct_ordered (ms : Mems) :
   have := roundUp_ge (x := ((sysvFold false ms {}).bitpos + 7) / 8) (le_sysvAlignFold ms 1)
   omega
 
+/-- the enum rule: an enumerated type has the size c2mir and the platform compiler agree on, for
+every representable range of enumerators; when it is 4 bytes wide also the same signedness -/
+theorem enumBase_size (mn mx : Int) (h0 : mn ≤ 0) (h1 : 0 ≤ mx)
+    (hmn : -9223372036854775808 ≤ mn) (hmx : mx ≤ 18446744073709551615)
+    (hboth : mn < 0 → mx ≤ 9223372036854775807) :
+    (c2mEnumBase mn mx).size = (gccEnumBase mn mx).size
+    ∧ ((gccEnumBase mn mx).size = 4 → c2mEnumBase mn mx = gccEnumBase mn mx) := by
+  unfold c2mEnumBase gccEnumBase
+  repeat' split
+  all_goals first
+    | omega
+    | (simp [Sc.size]; try omega)
+
 end MirVerif.Layout
